@@ -5,6 +5,7 @@ from ..core import Job, Undecided, VERIF
 from ..gprobe import ProbeModule, operator_contexts
 from ..rlayer import jobs as rjobs
 from . import c01, c02, c03
+from ..eexpr import expr_jobs, EMITTERS
 
 UB = ["--signed-overflow-check", "--undefined-shift-check", "--div-by-zero-check", "--pointer-overflow-check", "--float-overflow-check", "--nan-check"]
 UBF = ["--signed-overflow-check", "--undefined-shift-check", "--div-by-zero-check", "--pointer-overflow-check"]
@@ -100,6 +101,7 @@ def make_jobs(ctx):
     for j in j3:
         j.min_canaries = 1
     jobs += j3
+    jobs += expr_jobs(ctx, ["signed_infix", "shl", "shr_u", "shr_s"])
     for j in jobs:
         j.info["ub_obligations"] = "signed overflow, undefined shift, division by zero, pointer overflow, bounds, pointer validity (CBMC built-in properties of this run)"
     s = Job("S.compilers", src=None, solver="static", funcs=["gcc 12 / clang 14 on generated C"], bounded="supporting static facts and a boundary-input differential run; not the deciding step",
